@@ -22,7 +22,7 @@ def _safe(name):
 
 
 def write_replay(prop, tname, rec):
-    d = os.path.join(VERIF, "replays", prop)
+    d = os.path.join(os.environ.get("VERIF_REPLAY_DIR") or os.path.join(VERIF, "replays"), prop)
     os.makedirs(d, exist_ok=True)
     base = _safe(rec["name"])
     i = 0
